@@ -1,7 +1,7 @@
 """C15 — history independence."""
 import numpy as np
 
-from .. import env, core, gen, files, synth, readops, readcheck, symcodec, histcorr
+from .. import env, core, gen, files, synth, readops, readcheck, symcodec, histcorr, hdrcorr
 from seismic_zfp.read import SgzReader  # noqa: E402
 import seismic_zfp  # noqa: E402
 
@@ -13,7 +13,8 @@ RULE = ("near-collision histories (pairs of calls differing in exactly one argum
         "synthetic file (3D all layouts, irregular, 2D), preload in {F,T}, chunk_cache_size in {1,2,default}, with other readers "
         "opened and closed meanwhile; the result of every operation (not only the last) is compared with the same operation on "
         "a fresh reader"
-        "; K: Model/Cache.run vs real histories over 1-3 SgzReaders with logging handles: per call outcome, provenance digest and the range reads issued (hits, cross-reader evictions, preload, close)")
+        "; K: Model/Cache.run vs real histories over 1-3 SgzReaders with logging handles: per call outcome, provenance digest and the range reads issued (hits, cross-reader evictions, preload, close)"
+        "; Model/HeaderReads.run vs real histories of gen_trace_header / get_tracefield_values / clear_variant_headers on regular, irregular and 2D files with position-encoded footer arrays")
 
 
 def emu_apply(em, fi, op):
@@ -28,6 +29,8 @@ def emu_apply(em, fi, op):
         return em.trace[op[1]]
     if k == 'hdr':
         return em.header[op[1]]
+    if k == 'hdrall':
+        return em.gen_trace_header(op[1], load_all_headers=True)
     if k == 'tfv':
         return em.attributes(op[1])[:]
     return readops.apply(em, op)
@@ -57,7 +60,7 @@ def outcome(fn):
 def vary(rng, fi, op):
     """an op differing from `op` in exactly one argument (near collision)"""
     op = list(op)
-    idx = [i for i in range(1, len(op)) if isinstance(op[i], int)]
+    idx = [i for i in range(1, len(op)) if isinstance(op[i], int) and not isinstance(op[i], bool)]
     if not idx:
         return tuple(op)
     i = int(rng.choice(idx))
@@ -72,7 +75,7 @@ def history(rng, fi, length):
     stored = sorted(fi.arrays)
     if stored:
         base += [('hdr', int(rng.integers(T))), ('tfv', int(rng.choice(stored))), ('hdr', int(rng.integers(T))),
-                 ('tfv', int(rng.choice(stored)))]
+                 ('tfv', int(rng.choice(stored))), ('hdrall', int(rng.integers(T))), ('rvh', bool(rng.random() < .6))]
     h = []
     while len(h) < length:
         o = base[int(rng.integers(len(base)))]
@@ -124,8 +127,45 @@ def model_histories(ctx):
         model.close()
 
 
+def header_histories(ctx, n_quick=30, n_thorough=600):
+    """K: histories of header / tracefield reads and `clear_variant_headers` on one reader vs the Lean header-read state
+    machine (Model/HeaderReads): per call the outcome class, the digest of the values and the range reads issued"""
+    rng = gen.rng_for(ctx.seed, 'c15-headers')
+    model = core.Model()
+    try:
+        for hnum in range(n_quick if ctx.quick else n_thorough):
+            kind = ('regular', 'irregular', '2d', 'irregular')[hnum % 4]
+            p = ctx.path('hh.sgz')
+            fd = hdrcorr.make_file(p, rng, kind)
+            T = fd['grid'] - len(fd['holes'])
+            ops = []
+            for _ in range(14 if ctx.quick else 30):
+                r = rng.random()
+                t = int(rng.choice([0, T - 1, T, fd['grid'] - 1, fd['grid'], int(rng.integers(fd['grid'] + 2))]))
+                if r < .35:
+                    ops.append(('hdr', t))
+                elif r < .45:
+                    ops.append(('hdrall', t))
+                elif r < .7:
+                    ops.append(('tfv', int(rng.choice(fd['stored'] + [1, 197, 115]))))
+                elif r < .8:
+                    ops.append(('rvh', bool(rng.random() < .5)))
+                elif r < .88:
+                    ops.append(('rvh1', bool(rng.random() < .5), int(rng.choice(fd['stored'] + [115]))))
+                else:
+                    ops.append(('clear',))
+            desc = {'kind': kind, 'grid': fd['grid'], 'holes': len(fd['holes']), 'stored': fd['stored'][:8]}
+            ctx.case(('hdrhist', kind, fd['grid'], hnum), sample={'file': desc, 'ops_head': ops[:5]} if hnum < 3 else None)
+            ctx.stats['header_history_ops'] += len(ops)
+            ctx.stats['header_history_' + kind] += 1
+            hdrcorr.run_history(ctx, model, p, fd, ops, desc)
+    finally:
+        model.close()
+
+
 def run(ctx):
     model_histories(ctx)
+    header_histories(ctx)
     rng = gen.rng_for(ctx.seed, 'c15')
     n_hist = 60 if ctx.quick else 1500
     length = 40 if ctx.quick else 200
@@ -151,6 +191,14 @@ def run(ctx):
                         readops.outcome(extra[-1], hist[int(rng.integers(len(hist)))])
                     if extra and rng.random() < .08:
                         extra.pop(int(rng.integers(len(extra)))).close()
+                    if op[0] == 'rvh':
+                        # loads the header arrays in one padding mode and returns nothing; its refusal of a second mode
+                        # on one reader is the library's pinned contract - what must not change is every later read
+                        tgt = em if who == len(readers) else readers[who]
+                        outcome(lambda: readops.apply(tgt, op))
+                        done.append((f'reader{who}' if who < len(readers) else 'emulator', op))
+                        ctx.stats['padding_mode_loads'] += 1
+                        continue
                     if who == len(readers):
                         got = outcome(lambda: emu_apply(em, fi, op))
                         via = 'emulator'
